@@ -1,6 +1,8 @@
 package props
 
 import (
+	"go/types"
+	"go/token"
 	"fmt"
 	"go/ast"
 	"go/constant"
@@ -85,6 +87,8 @@ func descByArgs(t *fnTable, name string, args ...string) *tables.Descriptor {
 }
 
 func runC13(c *core.Ctx) {
+	c.Rule("F2I", "float→integer conversions are range-checked")
+	checkFloatToIntConversions(c, "F2I")
 	c.Rule("COALT", "COALESCE's static type admits NULL unless an argument provably never is NULL")
 	checkCoalesceType(c, "COALT")
 	c.Rule("BOUNDS", "layout fixer: a slice indexed by a loop position has the ranged slice's length")
@@ -226,7 +230,7 @@ var mathDelegations = []delegation{
 	{"pow", []string{"Float", "Float"}, "Float", `^math\.Pow\(values\[0\]\.Float,values\[1\]\.Float\)$`},
 	{"time_from_unix", []string{"Int"}, "Time", `^time\.Unix\(values\[0\]\.Int,0\)$`},
 	{"time_to_unix", []string{"Time"}, "Int", `^time\.Time\.Unix\(values\[0\]\.Time\)$`},
-	{"int", []string{"Float"}, "Int", `^values\[0\]\.Float$`},
+	{"int", []string{"Float"}, "Int", `^(values\[0\]\.Float|functions\.floatToInt\(values\[0\]\.Float\)\.0)$`},
 	{"int", []string{"Duration"}, "Int", `^values\[0\]\.Duration$`},
 	{"float", []string{"Int"}, "Float", `^values\[0\]\.Int$`},
 	{"float", []string{"Duration"}, "Float", `^values\[0\]\.Duration$`},
@@ -658,4 +662,81 @@ func checkStringConversion(c *core.Ctx, t *fnTable, ids map[string]int64) {
 		}
 		c.Decide(bad == "" && len(outs) > 0, "STR", ckey, d.Function.Pos(), len(outs), "converted without loss", bad)
 	}
+}
+
+// f2iBounded: float→integer conversions whose operand is bounded by construction. One line of reason each.
+var f2iBounded = map[string]string{
+	"int64(float64(time.Second) * f)": "f is the fractional part returned by math.Modf, in (-1, 1): the product is within ±1e9",
+}
+
+// checkFloatToIntConversions (F2I): Go leaves the result of converting a float that the integer type cannot hold
+// (NaN, ±Inf, |x| ≥ 2^63) implementation-defined — amd64 yields MinInt64, other platforms differ. A function that
+// converts an argument this way returns platform-dependent garbage for int(1e300). Every float64→int64 conversion in
+// the function library must sit in a function that tests the same operand for NaN and both bounds first, or be listed
+// as bounded by construction.
+func checkFloatToIntConversions(c *core.Ctx, rule string) {
+	p := c.Prog
+	n := 0
+	for _, fr := range p.AllFuncs("functions") {
+		info := fr.Info()
+		name := p.FName(fr)
+		core.WalkStack(fr.Decl.Body, func(nd ast.Node, stack []ast.Node) bool {
+			call, ok := nd.(*ast.CallExpr)
+			if !ok || len(call.Args) != 1 {
+				return true
+			}
+			tv, ok := info.Types[call.Fun]
+			if !ok || !tv.IsType() {
+				return true
+			}
+			if b, ok := tv.Type.Underlying().(*types.Basic); !ok || b.Info()&types.IsInteger == 0 {
+				return true
+			}
+			at := info.TypeOf(call.Args[0])
+			if ab, ok := at.Underlying().(*types.Basic); !ok || ab.Info()&types.IsFloat == 0 || info.Types[call.Args[0]].Value != nil {
+				return true
+			}
+			n++
+			c.SawFunc(name)
+			src := core.ExprStr(call)
+			key := fmt.Sprintf("%s/%s", name, src)
+			if why, ok := f2iBounded[src]; ok {
+				c.OK(rule, key, call.Pos(), 1, "bounded by construction: "+why)
+				return true
+			}
+			// the innermost enclosing function (literal or declaration) tests the operand
+			var body *ast.BlockStmt = fr.Decl.Body
+			for i := len(stack) - 1; i >= 0; i-- {
+				if fl, ok := stack[i].(*ast.FuncLit); ok {
+					body = fl.Body
+					break
+				}
+			}
+			operand := core.ExprStr(call.Args[0])
+			nan, upper, lower := false, false, false
+			ast.Inspect(body, func(m ast.Node) bool {
+				switch v := m.(type) {
+				case *ast.CallExpr:
+					if core.ExprStr(v.Fun) == "math.IsNaN" && len(v.Args) == 1 && core.ExprStr(v.Args[0]) == operand {
+						nan = true
+					}
+				case *ast.BinaryExpr:
+					if core.ExprStr(v.X) == operand && v.Pos() < call.Pos() {
+						switch v.Op {
+						case token.GEQ, token.GTR:
+							upper = true
+						case token.LSS, token.LEQ:
+							lower = true
+						}
+					}
+				}
+				return true
+			})
+			c.Decide(nan && upper && lower, rule, key, call.Pos(), 1, "the operand is tested for NaN and both bounds before the conversion",
+				fmt.Sprintf("%s converts a float that may be NaN, infinite or beyond ±2^63 to an integer; Go leaves that result implementation-defined (MinInt64 on amd64): int(1e300), int(NaN) and time_from_unix(1e19) return −9223372036854775808 instead of failing", src))
+			return true
+		})
+	}
+	c.Floor(rule, 2, "float→integer conversions in the function library")
+	_ = n
 }
